@@ -287,7 +287,7 @@ Proof. apply forallb_repeat_ops. rewrite forallb_app, good_dill_write, good_upda
 Lemma good_search cd c tag s : forallb (fresh_good cd c) (fst (fst (fst (search_ops cd c tag s)))) = true.
 Proof.
   unfold search_ops. destruct (c_search c); [apply good_dill_write|].
-  destruct (fd s Dill) as [|[|]|[|g|]]; try (destruct (c_updates c) eqn:U; [reflexivity | rewrite <- U; apply good_loop]); try reflexivity.
+  destruct (fd s Dill) as [|[|]|[|g|]]; try (destruct (c_updates c) eqn:U; [destruct (fx_zero cd); reflexivity | rewrite <- U; apply good_loop]); try reflexivity.
   destruct (fx_resume cd); [|reflexivity]. destruct (c_updates c) as [|[|n]]; try reflexivity. apply good_loop.
 Qed.
 
@@ -302,7 +302,7 @@ Lemma search_no_internal cd c tag s f g sm :
   search_ops cd c tag s = (f, inr g, sm, false) -> f = dill_write cd (Full (Gen g)).
 Proof.
   unfold search_ops. destruct (c_search c); [intro H; inversion H; reflexivity|].
-  destruct (fd s Dill) as [|[|]|[|g'|]]; try (destruct (c_updates c); intro H; inversion H; fail).
+  destruct (fd s Dill) as [|[|]|[|g'|]]; try (destruct (c_updates c); [destruct (fx_zero cd)|]; intro H; inversion H; fail).
   destruct (fx_resume cd); [|intro H; inversion H]. destruct (c_updates c) as [|[|n]]; intro H; inversion H.
 Qed.
 
@@ -588,8 +588,8 @@ Definition recoverable (cd : code) (c : cfg) (s : fs) : Prop :=
         | _ => True
         end)).
 
-(* the searches are configured to do some work: BFGS/LBFGS with maxiter = 0 raises UnboundLocalError (modelled) *)
-Definition sane (c : cfg) : Prop := c_search c = LBFGS -> 1 <= c_updates c.
+(* BFGS/LBFGS with maxiter = 0 raises UnboundLocalError (modelled) unless the proposed repair fx_zero is in *)
+Definition sane (cd : code) (c : cfg) : Prop := c_search c = LBFGS -> c_updates c = 0 -> fx_zero cd = true.
 
 Lemma save_all_keeps cd s r : (r = StartTime \/ r = Time \/ r = Dill \/ r = Summary) -> fd (exec (save_all_ops cd) s) r = fd s r.
 Proof. unfold save_all_ops, json_write. intros [->|[->|[->| ->]]]; destruct (fx_json cd); reflexivity. Qed.
@@ -610,7 +610,7 @@ Lemma fresh_resume cd c tag h s :
      | Full (Gen _) => c_search c = Drawer
      | _ => True
      end) ->
-  sane c ->
+  sane cd c ->
   exists r, plan_out cd c tag h s = inr r /\ stored c (r_tag r) (run_full cd c tag h s)
             /\ r_samples r = Some (r_tag r).
 Proof.
@@ -626,9 +626,10 @@ Proof.
   assert (Hf : exists f g sm internal, fit_ops cd c tag s2 = (f, inr g, sm, internal)).
   { assert (Hs : exists f g sm internal, search_ops cd c tag s2 = (f, inr g, sm, internal)).
     { unfold search_ops. rewrite E3. destruct (c_search c) eqn:S; [do 4 eexists; reflexivity|].
-      specialize (H3 eq_refl). specialize (H5 S). destruct (c_updates c) as [|n0] eqn:U; [lia|].
-      destruct (fd s Dill) as [|p|[|g|]]; try contradiction; try (do 4 eexists; reflexivity).
-      rewrite H3. destruct n0; do 4 eexists; reflexivity. }
+      specialize (H3 eq_refl). specialize (H5 S).
+      destruct (fd s Dill) as [|p|[|g|]]; try contradiction;
+        try (destruct (c_updates c) as [|n0]; [rewrite (H5 eq_refl)|]; do 4 eexists; reflexivity).
+      rewrite H3. destruct (c_updates c) as [|[|n]]; do 4 eexists; reflexivity. }
     destruct Hs as [f [g [sm [internal Hs]]]].
     assert (Hk : exists ev, chk_ops cd c s2 = (None, ev)).
     { unfold chk_ops. rewrite E4. destruct (c_chk c) eqn:K; [|eexists; reflexivity].
@@ -660,7 +661,7 @@ Qed.
 
 (* C06_resume: from every reachable, recoverable state an uninterrupted run ends with a complete stored result *)
 Lemma resume cd c tag h s :
-  Inv cd c s -> recoverable cd c s -> sane c ->
+  Inv cd c s -> recoverable cd c s -> sane cd c ->
   exists r, plan_out cd c tag h s = inr r /\ stored c (r_tag r) (run_full cd c tag h s)
             /\ (r_samples r = Some (r_tag r) \/ r_samples r = expected_samples c (r_tag r)).
 Proof.
@@ -684,49 +685,82 @@ Proof.
     + eexists. split; [exact A|]. split; [exact B | right; reflexivity].
 Qed.
 
-(* with all four repairs every reachable state is recoverable *)
-Lemma repaired_recoverable c s : Inv repaired c s -> recoverable repaired c s.
+(* the six file-system repairs that are in /repo *)
+Definition core_fixed (cd : code) : Prop :=
+  fx_zip cd = true /\ fx_resume cd = true /\ fx_timer cd = true /\ fx_dill cd = true /\ fx_chk cd = true /\ fx_json cd = true.
+
+Lemma repaired_core : core_fixed repaired /\ core_fixed repaired_all.
+Proof. repeat split; reflexivity. Qed.
+
+(* with them every reachable state is recoverable *)
+Lemma fixed_recoverable cd c s : core_fixed cd -> Inv cd c s -> recoverable cd c s.
 Proof.
-  intro HI. unfold Inv in HI. unfold recoverable, eff_dir. simpl.
+  intros [Fz [Fr [Ft [Fd [Fk Fj]]]]] HI. unfold Inv in HI. unfold recoverable, eff_dir.
   destruct (fz s) as [| |snap] eqn:Z.
-  - destruct HI as [_ [_ Hd]]. split; [discriminate|]. split; [intros _; apply Hd; reflexivity|].
-    intros _. split; [discriminate|]. split; [discriminate|]. split; [|discriminate].
-    intros _. specialize (Hd eq_refl). destruct (fd s Dill) as [|p|[|g|]]; simpl in Hd; try contradiction; auto.
-  - destruct HI as [_ F]. discriminate F.
-  - destruct HI as [_ [_ [_ Hd]]]. split; [discriminate|]. split; [intros _; apply Hd; reflexivity|].
-    intros _. split; [discriminate|]. split; [discriminate|]. split; [|discriminate].
-    intros _. specialize (Hd eq_refl). destruct (snap Dill) as [|p|[|g|]]; simpl in Hd; try contradiction; auto.
+  - destruct HI as [_ [_ Hd]]. split; [discriminate|]. split; [intros _; apply Hd; exact Fd|].
+    intros _. split; [intro X; congruence|]. split; [intro X; congruence|]. split; [|intros _ X; congruence].
+    intros _. specialize (Hd Fd). destruct (fd s Dill) as [|p|[|g|]]; simpl in Hd; try contradiction; auto.
+  - destruct HI as [_ F]. congruence.
+  - destruct HI as [_ [_ [_ Hd]]]. split; [discriminate|]. split; [intros _; apply Hd; exact Fd|].
+    intros _. split; [intro X; congruence|]. split; [intro X; congruence|]. split; [|intros _ X; congruence].
+    intros _. specialize (Hd Fd). destruct (snap Dill) as [|p|[|g|]]; simpl in Hd; try contradiction; auto.
 Qed.
 
-(* the headline for the repaired code: whatever happened before, the next uninterrupted run succeeds *)
-Lemma resume_repaired c runs tag h : sane c ->
+Lemma repaired_recoverable c s : Inv repaired c s -> recoverable repaired c s.
+Proof. apply fixed_recoverable. apply repaired_core. Qed.
+
+Lemma resume_fixed cd c runs tag h : core_fixed cd -> sane cd c ->
+  let s := history cd c 0 runs empty_fs in
+  exists r, plan_out cd c tag h s = inr r /\ stored c (r_tag r) (run_full cd c tag h s)
+            /\ (r_samples r = Some (r_tag r) \/ r_samples r = expected_samples c (r_tag r)).
+Proof.
+  intros Hc Hs s. apply resume; [apply inv_reachable | apply fixed_recoverable; [exact Hc | apply inv_reachable] | exact Hs].
+Qed.
+
+(* the headline for the code as it is: whatever happened before, the next uninterrupted run succeeds *)
+Lemma resume_repaired c runs tag h : sane repaired c ->
   let s := history repaired c 0 runs empty_fs in
   exists r, plan_out repaired c tag h s = inr r /\ stored c (r_tag r) (run_full repaired c tag h s)
             /\ (r_samples r = Some (r_tag r) \/ r_samples r = expected_samples c (r_tag r)).
-Proof.
-  intros Hs s. apply resume; [apply inv_reachable | apply repaired_recoverable; apply inv_reachable | exact Hs].
-Qed.
+Proof. intro Hs. apply resume_fixed; [apply repaired_core | exact Hs]. Qed.
+
+(* with the two proposed repairs as well: no side condition on the configuration is left *)
+Lemma resume_all_repairs c runs tag h :
+  let s := history repaired_all c 0 runs empty_fs in
+  exists r, plan_out repaired_all c tag h s = inr r /\ stored c (r_tag r) (run_full repaired_all c tag h s)
+            /\ (r_samples r = Some (r_tag r) \/ r_samples r = expected_samples c (r_tag r)).
+Proof. apply resume_fixed; [apply repaired_core | intros _ _; reflexivity]. Qed.
 
 (* maxiter = 0 is the one configuration the repaired code can not run: BFGS/LBFGS raises UnboundLocalError *)
 Lemma lbfgs_zero_updates_fails rm csv keep chk :
-  plan_out repaired (mkcfg LBFGS 0 rm csv keep chk) 0 [] empty_fs = inl UnboundLocal.
+  plan_out six_repairs (mkcfg LBFGS 0 rm csv keep chk) 0 [] empty_fs = inl UnboundLocal.
 Proof. destruct rm, csv, keep, chk; reflexivity. Qed.
 
 (* complete once, for every state the repaired code can reach *)
+Lemma complete_once_fixed cd c runs tag h g : fx_dill cd = true ->
+  let s := history cd c 0 runs empty_fs in
+  stored c g s ->
+  plan_out cd c tag h s = inr (mkres g (expected_samples c g) false)
+  /\ plan_sampled cd c tag h s = false
+  /\ stored c g (run_full cd c tag h s).
+Proof.
+  intros Fd s H. apply complete_once; [exact H|].
+  pose proof (inv_reachable cd c runs) as HI. fold s in HI. unfold Inv in HI. unfold eff_dir.
+  unfold stored in H. destruct (fz s) as [| |snap].
+  - destruct HI as [_ [_ D]]. apply D. exact Fd.
+  - contradiction.
+  - destruct HI as [_ [_ [_ D]]]. apply D. exact Fd.
+Qed.
+
 Lemma complete_once_repaired c runs tag h g :
   let s := history repaired c 0 runs empty_fs in
   stored c g s ->
   plan_out repaired c tag h s = inr (mkres g (expected_samples c g) false)
   /\ plan_sampled repaired c tag h s = false
   /\ stored c g (run_full repaired c tag h s).
-Proof.
-  intros s H. apply complete_once; [exact H|].
-  pose proof (inv_reachable repaired c runs) as HI. fold s in HI. unfold Inv in HI. unfold eff_dir.
-  unfold stored in H. destruct (fz s) as [| |snap].
-  - destruct HI as [_ [_ D]]. apply D. reflexivity.
-  - contradiction.
-  - destruct HI as [_ [_ [_ D]]]. apply D. reflexivity.
-Qed.
+Proof. apply complete_once_fixed. reflexivity. Qed.
+
+
 
 (* the archive is never left truncated once zip_directory is atomic *)
 Lemma zipfix_no_partial cd c runs : fx_zip cd = true -> fz (history cd c 0 runs empty_fs) <> ZPartial.
